@@ -1,14 +1,7 @@
-import MQ.Inv.RingRun0
+import MQ.Inv.Frame2
+import MQ.Inv.RingSteps
 set_option linter.unusedSimpArgs false
 namespace MQ
-
-/-- pcs about which `Loc` says nothing and that hold no claim -/
-def PC.neutral : PC → Bool
-  | .st _ _ | .g1 _ _ _ | .g2 _ _ _ _ _ _ | .g3 _ _ _ _ _ | .tcs _ _ | .tcc _ _ _ | .tcl _ | .rf _ _ | .hd _ _
-  | .tg _ | .wr _ _ | .ts _ _
-  | .is1 _ | .r1 _ _ | .r2 _ _ | .r3 _ _ | .r3b _ _ | .r4 _ | .r5 _ _ | .r6 _ | .rd _ _ | .rc _ _ _ | .r8 _ _
-  | .r9 _ _ _ | .v1 _ | .v2 _ | .v3 _ | .vw _ _ | .vd _ _ | .v4 _ _ => false
-  | _ => true
 
 theorem loc_of_neutral {R : Ring} {x : Th} (h : x.pc.neutral = true) : Loc R x := by
   obtain ⟨pc, g', v', outer, ff, pn, ng, ns, s, single, aux⟩ := x
@@ -16,92 +9,12 @@ theorem loc_of_neutral {R : Ring} {x : Th} (h : x.pc.neutral = true) : Loc R x :
   case g3 m h' tl p r => cases r <;> simp [PC.neutral] at h
   all_goals first | (simp [PC.neutral] at h; done) | simp only [Loc]
 
-theorem claim_of_neutral {pc : PC} (h : pc.neutral = true) : pc.claim = none := by
-  cases pc <;> first | rfl | (simp [PC.neutral] at h)
-
-macro "neutral_tac" : tactic =>
-  `(tactic| ((try simp only []); repeat' split) <;> first | rfl | (simp [PC.neutral, St.goto, St.gotoF, St.setTh, St.setHd, St.flush, upd, *]; done))
-
-section
-variable (σ : St) (t : Nat)
-
-theorem afterNotify_neutral (k : Nat) : ((afterNotify σ t k).th t).pc.neutral = true := by
-  unfold afterNotify; neutral_tac
-theorem teardownStart_neutral (r : Res) : ((teardownStart σ t r).th t).pc.neutral = true := by
-  unfold teardownStart; neutral_tac
-theorem arcStep_neutral (r : Res) : ((arcStep σ t r).th t).pc.neutral = true := by
-  unfold arcStep; neutral_tac
-theorem startNotify_neutral (k : Nat) : ((startNotify σ t k).th t).pc.neutral = true := by
-  unfold startNotify; split <;> first | exact afterNotify_neutral σ t k | neutral_tac
-theorem sendDone_neutral (r : Res) : ((sendDone σ t r).th t).pc.neutral = true := by
-  unfold sendDone; (try simp only []); repeat' split
-  all_goals first | exact startNotify_neutral σ t _ | neutral_tac
-theorem startWait_neutral (j seq : Nat) : ((startWait σ t j seq).th t).pc.neutral = true := by
-  unfold startWait; neutral_tac
-theorem recvDone_neutral (r : Res) (j : Nat) : ((recvDone σ t r j).th t).pc.neutral = true := by
-  unfold recvDone; neutral_tac
-theorem waitDone_neutral : ((waitDone σ t).th t).pc.neutral = true := by
-  unfold waitDone; neutral_tac
-theorem checkDone_neutral (j seq : Nat) (ph : WPh) (b : Bool) : ((checkDone σ t j seq ph b).th t).pc.neutral = true := by
-  unfold checkDone; repeat' split
-  all_goals first | exact waitDone_neutral _ t | neutral_tac
-theorem recvDropEnd_neutral (x : Th) (f : List Ord) : ((stepRun.recvDropEnd σ t x f).th t).pc.neutral = true := by
-  unfold stepRun.recvDropEnd; (try simp only []); repeat' split
-  all_goals first | (simp [teardownStart, PC.neutral, St.goto, St.setTh, upd]; done) | neutral_tac
-theorem startNotify2_neutral : ((stepRun.startNotify2 σ t).th t).pc.neutral = true := by
-  unfold stepRun.startNotify2; neutral_tac
-end
-
-end MQ
-
-namespace MQ
-
-/-- pcs whose step leaves the ring unchanged and ends in a neutral pc -/
-def PC.srcNeutral : PC → Bool
-  | .idle | .ret _ | .s0 | .m1 | .od _ | .nb1 _ | .nb2 _ | .nf _ _ | .r0 | .c1 _ _ _ | .c2 _ _ _ _ | .wy _ _ _
-  | .wl _ _ | .wcvw _ _ | .wblk _ _ | .pk _ _ | .psl | .cs1 | .ds1 | .cr1 | .un1 | .dr1 | .rr3 _ | .rr4 | .rr5
-  | .a1 | .isg | .arc _ | .tdb _ | .tdbd _ | .tm1 _ | .tm2 _ | .tm3 _ | .tmd _ | .tm4 _ | .sy | .spl | .w0 _ => true
-  | _ => false
-
-set_option maxHeartbeats 1000000 in
-theorem stepRun_neutral (σ : St) (t inp : Nat) (h : (σ.th t).pc.srcNeutral = true) :
-    ((stepRun σ t inp).2.th t).pc.neutral = true := by
-  have hcl := h
-  unfold stepRun
-  simp only []
-  split
-  all_goals (first | (rename_i heq; rw [heq] at h; simp [PC.srcNeutral] at h; done) | skip)
-  all_goals (repeat' split)
-  all_goals first
-    | rfl
-    | (rename_i heq; simp only [heq]; rfl)
-    | (rename_i heq _; simp only [heq]; rfl)
-    | exact sendDone_neutral _ t _
-    | exact recvDone_neutral _ t _ _
-    | exact checkDone_neutral _ t _ _ _ _
-    | exact startWait_neutral _ t _ _
-    | exact afterNotify_neutral _ t _
-    | exact startNotify_neutral _ t _
-    | exact teardownStart_neutral _ t _
-    | exact recvDropEnd_neutral _ t _ _
-    | exact startNotify2_neutral _ t
-    | (simp [PC.neutral, St.goto, St.gotoF, St.setTh, St.setHd, St.flush, upd, teardownStart]; done)
-
-end MQ
-
-namespace MQ
-
-theorem srcNeutral_not_changing {pc : PC} (h : pc.srcNeutral = true) : pc.ringChanging = false := by
-  cases pc <;> first | rfl | (simp [PC.srcNeutral] at h)
-
-theorem srcNeutral_claim {pc : PC} (h : pc.srcNeutral = true) : pc.claim = none := by
-  cases pc <;> first | rfl | (simp [PC.srcNeutral] at h)
-
 theorem rinv_run_neutral {σ : St} (t inp : Nat) (I : RInv σ) (h : (σ.th t).pc.srcNeutral = true) :
     RInv (stepRun σ t inp).2 := by
   unfold RInv
   rw [th_eq_upd, stepRun_ring_same _ _ _ (srcNeutral_not_changing h)]
   have hn := stepRun_neutral σ t inp h
   exact rinvR_same I (loc_of_neutral hn) (by rw [claim_of_neutral hn, srcNeutral_claim h])
+    (by intro e; rw [neutral_not_add hn] at e; cases e)
 
 end MQ
